@@ -8,27 +8,28 @@ package main
 import (
 	"fmt"
 	"math"
+	"strconv"
 	"strings"
 	"time"
 )
 
 func init() {
-	extend("C01", bigKinds("C01", []string{"sort", "head", "tail", "rowslice", "filter", "iloc", "multiselect", "shift", "dedup", "appendrow", "droprow", "fillna", "dropna", "rename", "addcolumn", "setcell", "dedupinplace"}, []bigCfg{{70, 5, false}, {300, 3, false}, {600, 2, false}}, false))
+	extend("C01", bigKinds("C01", []string{"sort", "head", "tail", "rowslice", "filter", "iloc", "multiselect", "shift", "dedup", "appendrow", "droprow", "fillna", "dropna", "rename", "addcolumn", "setcell", "dedupinplace"}, []bigCfg{{70, 5, false, false}, {300, 3, false, false}, {600, 2, false, false}}, false))
 	extend("C02", bigC02)
 	extend("C03", bigC03)
-	extend("C04", bigKinds("C04", []string{"groupby"}, []bigCfg{{70, 2, false}, {600, 2, true}}, false))
-	extend("C05", bigKinds("C05", []string{"groupagg"}, []bigCfg{{70, 3, false}, {600, 3, true}}, false))
+	extend("C04", bigKinds("C04", []string{"groupby"}, []bigCfg{{70, 2, false, false}, {600, 2, true, false}}, false))
+	extend("C05", bigKinds("C05", []string{"groupagg"}, []bigCfg{{70, 3, false, false}, {600, 3, true, false}}, false))
 	extend("C06", bigC06)
-	extend("C07", bigKinds("C07", []string{"dedup", "dedupinplace"}, []bigCfg{{70, 3, false}, {300, 2, false}, {600, 2, true}}, false))
-	extend("C08", bigKinds("C08", []string{"filter", "row", "head", "tail", "rowslice", "iloc", "loc", "multiselect", "droprow", "dropcolumn", "nrows", "select", "colat", "series", "string"}, []bigCfg{{70, 6, false}, {300, 4, false}, {600, 3, true}, {1100, 1, true}}, false))
+	extend("C07", bigKinds("C07", []string{"dedup", "dedupinplace"}, []bigCfg{{70, 3, false, false}, {300, 2, false, false}, {600, 2, true, false}}, false))
+	extend("C08", bigKinds("C08", []string{"filter", "row", "head", "tail", "rowslice", "iloc", "loc", "multiselect", "droprow", "dropcolumn", "nrows", "select", "colat", "series", "string"}, []bigCfg{{70, 6, false, false}, {300, 4, false, false}, {600, 3, true, false}, {1100, 1, true, false}}, false))
 	extend("C09", bigC09)
 	extend("C10", bigC10)
-	extend("C15", bigKinds("C15", []string{"astype", "fillna", "dropna"}, []bigCfg{{70, 3, false}, {300, 3, false}, {1100, 2, true}}, false))
+	extend("C15", bigKinds("C15", []string{"astype", "fillna", "dropna"}, []bigCfg{{70, 3, false, false}, {300, 3, false, false}, {1100, 2, true, false}}, false))
 	extend("C15", bigC15)
 	extend("C16", bigC16)
 	extend("C17seq", bigC17)
-	extend("C18", bigKinds("C18", []string{"resample"}, []bigCfg{{70, 3, false}, {300, 3, true}}, true))
-	extend("C19", bigKinds("C19", []string{"shift"}, []bigCfg{{70, 3, false}, {300, 2, false}, {1100, 1, true}}, false))
+	extend("C18", bigKinds("C18", []string{"resample"}, []bigCfg{{70, 3, false, false}, {300, 3, true, false}}, true))
+	extend("C19", bigKinds("C19", []string{"shift"}, []bigCfg{{70, 3, false, false}, {300, 2, false, false}, {1100, 1, true, false}}, false))
 	extend("C01", gapC01)
 	extend("C01", gap6C01)
 	extend("C01", gap7CSVReceiver)
@@ -76,7 +77,87 @@ func init() {
 	extend("C05", gapC05)
 	extend("C09", gapC09)
 	extend("C20", gapC20)
-	extend("C20", bigKinds("C20", []string{"apply", "head", "tail", "row", "rowslice", "iloc", "droprow", "sort", "multiselect", "join", "add", "resample", "astype", "colat", "series", "plot"}, []bigCfg{{70, 6, false}, {300, 4, false}, {600, 1, true}}, false))
+	extend("C20", bigKinds("C20", []string{"apply", "head", "tail", "row", "rowslice", "iloc", "droprow", "sort", "multiselect", "join", "add", "resample", "astype", "colat", "series", "plot"}, []bigCfg{{70, 6, false, false}, {300, 4, false, false}, {600, 1, true, false}}, false))
+	// round 10: sizes just past the thresholds at which an implementation might switch to a batched, parallel or
+	// cached path (1024, 2048; never a multiple of 8 or 256), and groupings with as many groups as rows
+	extend("C01", bigKinds("C01", []string{"filter", "dropna", "dedupinplace", "head", "shift"}, []bigCfg{{1027, 2, true, false}, {2051, 1, true, false}}, false))
+	extend("C04", bigKinds("C04", []string{"groupby"}, []bigCfg{{203, 1, true, true}, {1027, 1, true, false}, {2051, 1, true, false}}, false))
+	extend("C05", bigKinds("C05", []string{"groupagg"}, []bigCfg{{211, 3, true, true}, {1027, 1, true, true}, {2051, 1, true, false}}, false))
+	extend("C07", bigKinds("C07", []string{"dedup", "dedupinplace"}, []bigCfg{{1027, 2, true, false}, {2051, 2, true, false}}, false))
+	extend("C08", bigKinds("C08", []string{"filter", "iloc", "head", "tail", "rowslice", "droprow"}, []bigCfg{{2051, 3, true, false}}, false))
+	extend("C15", bigKinds("C15", []string{"dropna", "astype", "fillna"}, []bigCfg{{2051, 1, true, false}}, false))
+	extend("C20", bigKinds("C20", []string{"head", "tail", "rowslice", "iloc", "droprow", "astype"}, []bigCfg{{2051, 2, true, false}}, false))
+	extend("C07", gap10C07)
+	extend("C16", gap10C16)
+}
+
+// C07: classes of equal rows whose members lie far apart - two at the start and one near the end, one in each half,
+// one at each end - in frames past 1024 and 2048 rows, under every Keep, in place and not (a deduplication done
+// block by block and then merged is only right for first and last)
+func gap10C07(g *Gen, tier string, res *GenOutput) {
+	for _, n := range bigSizes(tier, []int{1500, 2051}, []int{4099}) {
+		k := Col{Key: "k", Name: "k", Data: make([]Cell, 0, n)}
+		w := Col{Key: "w", Name: "w", Data: make([]Cell, 0, n)}
+		for i := 0; i < n; i++ {
+			v := int64(i)
+			switch i {
+			case 0, 1, n - 40:
+				v = -1
+			case 5, n - 7:
+				v = -2
+			case 1023, 1024, 1025:
+				v = -3
+			case 700, 701, 702, n - 3, n - 2:
+				v = -4
+			}
+			k.Data = append(k.Data, IntCell("int", v))
+			w.Data = append(w.Data, IntCell("int", int64(i%2)))
+		}
+		f := mkFrame(k, w)
+		ops := []Op{}
+		for _, keep := range []string{"none", "first", "last"} {
+			ops = append(ops, Op{K: "dedup", F: 0, HasOpt: true, Strs: []BStr{"k"}, S1: BStr(keep)})
+		}
+		ops = append(ops, Op{K: "dedup", F: 0, HasOpt: true, Strs: []BStr{}, S1: "none"}, Op{K: "dedupinplace", F: 0, HasOpt: true, Strs: []BStr{"k"}, S1: "none"}, Op{K: "nrows", F: 0})
+		res.Hists = append(res.Hists, RunHist(fmt.Sprintf("far-apart-duplicates rows=%d", n), []Frame{f}, ops))
+		bump(res.Stats, "far-apart-duplicates")
+	}
+}
+
+// C16: Add on integer cells whose sum leaves the int64 range, in every integer width, against the same numbers as
+// float64 and as text
+func gap10C16(g *Gen, tier string, res *GenOutput) {
+	big := []int64{9000000000000000000, math.MaxInt64, math.MinInt64, math.MaxInt64, 1 << 62, -(1 << 62), 5000000000000000000, 9007199254740993}
+	oth := []int64{9000000000000000000, 1, -1, math.MaxInt64, 1 << 62, -(1 << 62) - 1, 5000000000000000000, 9007199254740993}
+	mk := func(kind string, vals []int64) Col {
+		c := Col{Key: "x", Name: "x"}
+		for _, v := range vals {
+			switch kind {
+			case "f64":
+				c.Data = append(c.Data, F64Cell(float64(v)))
+			case "str":
+				c.Data = append(c.Data, StrCell(strconv.FormatInt(v, 10)))
+			case "uint64":
+				if v < 0 {
+					c.Data = append(c.Data, UintCell("uint64", math.MaxUint64-uint64(-(v+1))))
+				} else {
+					c.Data = append(c.Data, UintCell("uint64", uint64(v)+(1<<63)))
+				}
+			default:
+				c.Data = append(c.Data, IntCell(kind, v))
+			}
+		}
+		return c
+	}
+	zero := IntCell("int", 0)
+	for _, ka := range []string{"int", "int64", "uint64", "f64", "str"} {
+		for _, kb := range []string{"int", "int64", "uint64", "f64"} {
+			a, b := mkFrame(mk(ka, big)), mkFrame(mk(kb, oth))
+			ops := []Op{{K: "add", F: 0, G: 1}, {K: "add", F: 1, G: 0}, {K: "add", F: 0, G: 0}, {K: "add", F: 0, G: 1, Fill: &zero}, {K: "agg", F: 0, Agg: "sum"}, {K: "describe", F: 0}}
+			res.Hists = append(res.Hists, RunHist("add-beyond-int64 "+ka+"+"+kb, []Frame{a, b}, ops))
+			bump(res.Stats, "add-beyond-int64")
+		}
+	}
 }
 
 // one size of a size stream: rows, number of steps, narrow (three columns only)
@@ -84,6 +165,8 @@ type bigCfg struct {
 	n      int
 	steps  int
 	narrow bool
+	// many: group by the row number (as many groups as rows) instead of a key with a few values
+	many bool
 }
 
 func bigCfgs(tier string, cfgs []bigCfg) []bigCfg {
@@ -92,7 +175,11 @@ func bigCfgs(tier string, cfgs []bigCfg) []bigCfg {
 	}
 	out := append([]bigCfg{}, cfgs...)
 	last := cfgs[len(cfgs)-1]
-	out = append(out, bigCfg{2 * last.n, last.steps, true}, bigCfg{2600, 1, true})
+	if last.n > 1200 {
+		// a threshold stream: one more size past the next power of two
+		return append(out, bigCfg{n: 4099, steps: 1, narrow: true, many: false})
+	}
+	out = append(out, bigCfg{n: 2 * last.n, steps: last.steps, narrow: true}, bigCfg{n: 2600, steps: 1, narrow: true})
 	return out
 }
 
@@ -190,6 +277,12 @@ func bigKinds(prop string, kinds []string, cfgs []bigCfg, withTime bool) func(g 
 						o.GList, o.S1 = false, BStr([]string{"k2", "k0"}[g.r.Intn(2)])
 						if len(f.Cols) <= 4 {
 							o.S1 = "k2"
+						}
+					}
+					if cfg.many {
+						o.GList, o.S1 = false, "id"
+						if k == "groupagg" {
+							o.Agg, o.Cols = []string{"sum", "mean", "count"}[step%3], []BStr{"v1"}
 						}
 					}
 					if k == "groupagg" && len(o.Cols) == 0 {
